@@ -128,6 +128,21 @@ CHECKS.update({
         design="5/C05"),
 })
 
+CHECKS.update({
+    "C18": dict(
+        engine="tgv-ide",
+        technique=FORM_E + " over the program model: the expected outline and folding ranges are recorded by the emitter while it prints the program",
+        text="Every declaration variant (optional parts present and absent, anonymous forms, defsets with members, multiclasses) inside every wrapper path of block-bearing statements up to the depth bound, in one- and two-file layouts, plus the C05 scope programs; document symbols (ordered, kinds, names, identifier ranges, children) and folding ranges (bijection with statements, first token to last non-trivia token, nested or disjoint) are compared with the construction.",
+        note="literal reading of the statement: named defs inside foreach/let/if/multiclass bodies are top-level entries in source order",
+        design="5/C18"),
+    "C19": dict(
+        engine="tgv-ide",
+        technique=FORM_E + " over the program model: hover facts (kind, name, declared type, attached doc lines) and inlay hints are known by construction",
+        text="Programs with every doc-comment shape (0..2 lines, attached or detached) on every declaration kind that can carry one and class references with every positional/named argument count in every reference position; hover is requested at every offset of every resolved identifier and inlay hints for the whole file and for token-boundary sub-ranges (every one in the thorough tier).",
+        note="inferred variable types are not judged; a hint is inside a range when start <= position <= end",
+        design="5/C19"),
+})
+
 NOT_YET = {}
 
 def main():
